@@ -27,7 +27,7 @@ Big2(L) == <<64, 20, 1, 97>> \o F!EncStr(Rep(113, L)) \o <<20, 1, 98, 66, 16, 1,
 FamilyDocs ==
   {<<>>, <<64>>, <<65>>, <<0>>, <<64, 65>>, <<66, 67>>, <<64, 65, 65>>, <<64, 65, 64, 65>>} \cup
   {ObjNest(d) : d \in {1, 2, 9, 10, 11, 12}} \cup
-  {Big(L) : L \in {985, 990, 991, 992, 993, 994, 1000, 1300}} \cup {Big2(L) : L \in {970, 975, 976, 977, 978, 979, 980}}
+  {Big(L) : L \in {985, 990, 991, 992, 993, 994, 1000, 1300}} \cup {Big2(L) : L \in {970, 975, 976, 977, 978, 979, 980, 985, 990, 995, 1000, 1010, 2000}}
 
 R0 == [done |-> FALSE, ok |-> FALSE, ref |-> FALSE, same |-> TRUE, back |-> TRUE]
 Init == /\ res = R0
